@@ -44,7 +44,7 @@ impl DeltaEnv {
             // the pager from the environment variables, because we want to make sure
             // that the pager is a valid pager from env and handle the case of
             // the PAGER being set to something invalid like "most" and "more".
-            bat::config::get_pager_executable(None),
+            bat::config::get_pager_executable(None).map(with_arguments_from_env),
         );
 
         Self {
@@ -60,6 +60,23 @@ impl DeltaEnv {
             pagers,
         }
     }
+}
+
+/// `bat` reports the executable of the pager only: take the arguments from the variable it was
+/// found in (unless `bat` replaced the pager by another one).
+fn with_arguments_from_env(pager: String) -> String {
+    for var in ["BAT_PAGER", "PAGER"] {
+        if let Ok(command) = env::var(var) {
+            if command.trim().is_empty() {
+                continue;
+            }
+            return match shell_words::split(&command) {
+                Ok(words) if words.first() == Some(&pager) => command,
+                _ => pager,
+            };
+        }
+    }
+    pager
 }
 
 fn hostname() -> Option<String> {
